@@ -36,15 +36,12 @@ package authtoken
 // Minting (the production path behind AuthNew / AuthNewWithExpiry / `auth --ttl`): the claims that get
 // signed carry exactly the permissions asked for, and every non-zero lifetime - negative ones included,
 // which yield a token that is already expired - stamps an expiry of now + ttl into them; only ttl == 0
-// leaves the expiry unset ("never expires"). ($Stamped: an expiry was computed.)
+// leaves the expiry unset ("never expires": the zero time).
 //@ extern (time.Time).Add
 //@   ensures tns(result) == tns(t) + int(d)
-//@   effect $Stamped := true
 //@ func NewSignedJWT
 //@   property C19
-//@   noframe
-//@   requires !$Stamped
-//@   havoc $Stamped
 //@   callpre Builder).Build: unboxPtr($arg1, perms.JWTPayload).Allow == permissions
-//@   callpre Builder).Build: unboxPtr($arg1, perms.JWTPayload).ExpiresAt == expiresAt && (ttl != 0 <==> $Stamped)
+//@   callpre Builder).Build: unboxPtr($arg1, perms.JWTPayload).ExpiresAt == expiresAt
 //@   callpre Builder).Build: ttl != 0 ==> tns(expiresAt) >= nowNs() + int(ttl)
+//@   callpre Builder).Build: ttl == 0 ==> expiresAt == zero(expiresAt)
